@@ -847,6 +847,45 @@ def known_shapes(ck, exes):
         ck.obligations[-1]["explained"] = True
 
 
+# windows around an aborted blocked PUSH (the ticket of an aborted push must stay accounted for: later tickets may already be in use):
+# (scenario, phase script) — thread 0 parks in its blocked push, the other thread(s) abort and go on using the queue before thread 0
+# has run its abort handler; every run must end without a stuck try_pop/try_push, a lost or duplicated item
+ABORT_PUSH_WINDOWS = [
+    ({"kind": "b", "cap": "1", "progs": [["bpush:1:n", "bpush:2:n"], ["abort", "trypop", "trypop", "btrypush:3:n", "trypop"]]}, "0*,1*,0*,1*"),
+    ({"kind": "b", "cap": "1", "progs": [["bpush:1:n", "bpush:2:n"], ["abort", "trypop", "trypop"], ["bpush:3:n", "trypop"]]}, "0*,1*,2*,0*,1*,2*"),
+    ({"kind": "b", "cap": "1", "progs": [["bpush:1:n", "bpush:2:n"], ["setcap:3", "btrypush:3:n", "abort", "trypop", "trypop", "trypop"]]}, "0*,1*,0*,1*"),
+    ({"kind": "b", "cap": "1", "progs": [["bpush:1:n", "bpush:2:n"], ["setcap:3", "btrypush:3:n", "abort", "btrypush:4:n", "trypop", "trypop", "trypop", "trypop"]]}, "0*,1*,0*,1*"),
+    ({"kind": "b", "cap": "2", "progs": [["bpush:1:n", "bpush:2:n", "bpush:3:n"], ["bpush:4:n"], ["abort", "trypop", "trypop", "trypop", "trypop"]]}, "0*,1*,2*,1*,0*,2*"),
+]
+
+
+def abort_push_windows(ck, exes):
+    bad, corr, n = [], [], 0
+    for size in (8, 64):
+        for sc, script in ABORT_PUSH_WINDOWS:
+            runs, _, note = run_harness(exes[size], sc, "script", script, 1)
+            n += len(runs)
+            for r in runs:
+                ck.count(1, ("abort-push-window", size, str(sc["progs"]), str(r["res"])))
+                v = ("crash", r["mon"], "crash") if r.get("crash") else monitors(sc, r)
+                if v:
+                    bad.append((size, sc, script, r, v))
+                elif r["dead"] is None:
+                    d = replay_batch(ck, [(sc, r, IPP[size])])[0]
+                    if d:
+                        corr.append((size, sc, script, d))
+            if not runs:
+                bad.append((size, sc, script, {"res": {}, "sched": [], "drain": None}, ("crash", note[:300], "crash")))
+    ck.traces_validated += n
+    ck.oblige("monitor:aborted blocked push while later tickets are in use (scripted windows: abort, then pops/pushes/set_capacity by other threads before the "
+              "woken pusher runs its handler): nothing stuck, lost or duplicated", "correspondence", not bad,
+              "; ".join("%s under %s: %s: %s" % (sc["progs"], script, v[0], v[1][:200]) for _, sc, script, _, v in bad[:2]))
+    ck.oblige("corr:aborted-push window traces replay on TicketQ", "correspondence", not corr, "; ".join("%s: %s" % (sc["progs"], d) for _, sc, _, d in corr[:2]))
+    for size, sc, script, r, v in bad[:1]:
+        ck.counterexample("abort-push-window:" + v[2], "%s: %s (sizeof(T)=%d, capacity %s, programs %s, phase script %s)" % (v[0], v[1][:400], size, sc["cap"], sc["progs"], script),
+                          {"engine": "E-SHIM", "sizeof_T": size, "scenario": sc, "script": script, "schedule": r.get("sched", []), "verdict": list(v), "results": r.get("res")})
+
+
 def skip_shape_demo(ck, exes):
     sc = SKIP_SCENARIO
     runs, _, note = run_harness(exes[8], sc, "script", SKIP_SCRIPT, 1)
@@ -909,6 +948,7 @@ def run(ck):
     known_shapes(ck, exes)
     setcap_shape(ck, exes, consts)
     skip_shape_demo(ck, exes)
+    abort_push_windows(ck, exes)
     rng = ck.rng
     nsc, nrand = (14, 10) if quick else (120, 40)
     fams = [("unbounded", U_CORPUS + [gen_unbounded(rng) for _ in range(nsc)]),
